@@ -34,12 +34,12 @@ func isSubsequence(sub, seq []string) (bool, int) {
 
 func c03Oracle(c *ParseCase) string {
 	st := S("C03")
-	ref := Ref(&RefInput{D: c.D, Args: c.Args})
+	ref := Ref(&RefInput{D: c.D, Args: c.Args, Handler: c.Handler})
 	if ref.Undetermined != "" {
 		// R declines to predict; the model-free part still applies: whatever is
 		// returned must consist of argv tokens, verbatim and in order
 		st.Label("R undetermined (" + ref.Undetermined + "): model-free check only")
-		rr := RunReal(c.D, c.Args, nil, &RealCfg{CmdHandler: c.CmdHandler})
+		rr := RunReal(c.D, c.Args, nil, &RealCfg{CmdHandler: c.CmdHandler, Handler: c.Handler})
 		if rr.Panic != "" || rr.SetupErr != nil || rr.Err != nil {
 			return ""
 		}
@@ -86,7 +86,7 @@ func c03Oracle(c *ParseCase) string {
 		}
 		return ""
 	}
-	rr := RunReal(c.D, c.Args, nil, &RealCfg{CmdHandler: c.CmdHandler})
+	rr := RunReal(c.D, c.Args, nil, &RealCfg{CmdHandler: c.CmdHandler, Handler: c.Handler})
 	if rr.Panic != "" || rr.SetupErr != nil {
 		st.Label("skip: panic or setup error")
 		return ""
@@ -222,6 +222,11 @@ func TestC03(t *testing.T) {
 	runProp(t, "C03", func(t *rapid.T) *ParseCase {
 		c := genParseCase(t, c03Decl, c03Argv)
 		c.CmdHandler = rapid.Bool().Draw(t, "cmdhandler")
+		// an unknown-option handler installed although IgnoreUnknown is set:
+		// the pass-through policy applies, nothing may be lost to the handler
+		if c.D.Has(flags.IgnoreUnknown) && rapid.IntRange(0, 3).Draw(t, "idleHandler") == 0 {
+			c.Handler = &HandlerSpec{Mode: "drop1"}
+		}
 		return c
 	}, c03Oracle)
 }
